@@ -11,7 +11,7 @@ from harness import tlc, obs, strings as S, proj
 from harness.tlc import from_atoms, to_atoms
 from harness.props import c12, c19
 
-POOL = ['\\a{x} $y$', '\\textbf a \\label b', '\\begin{e}[o]{r}t\\end{e}', '\\begin{myv}$ {\\end{myv} z', '\\left( x \\right]',
+POOL = ['\\begin{myv}$ {\\end{myv} \\a{z}', '\\textbf a \\label b', '\\begin{e}[o]{r}t\\end{e}', '\\a{x} $y$', '\\left( x \\right]',
         '\\section[s]{t}\n\n\\begin{itemize}\\item i\\end{itemize}', '$m$ \\[d\\] \\(p\\)', '\\def\\x y %c\nz']
 SKIP = ('myv',)
 FORMS = ['str', 'list', 'tuple', 'gen', 'file', 'chars', 'lines']
@@ -42,10 +42,29 @@ def feed(src, form, cuts=None):
     raise ValueError(form)
 
 
+class Failed(object):
+    """a parse that ended in a diagnostic: behaves like an immutable document whose text is the error name"""
+    def __init__(self, name):
+        self.name = name
+        self.expr = None
+
+    def __str__(self):
+        return '<' + self.name + '>'
+
+
 def parse_obs(x, skip=SKIP):
     from TexSoup import TexSoup
-    soup = TexSoup(x, skip_envs=skip)
+    try:
+        soup = TexSoup(x, skip_envs=skip)
+    except (EOFError, TypeError, AssertionError) as e:
+        return Failed(type(e).__name__), {'out': '<' + type(e).__name__ + '>', 'flat': []}
     return soup, {'out': str(soup), 'flat': proj.flat_seq(soup.expr._contents)}
+
+
+def snapshot(doc):
+    if isinstance(doc, Failed):
+        return {'out': str(doc), 'flat': []}
+    return {'out': str(doc), 'flat': proj.flat_seq(doc.expr._contents)}
 
 
 def do_edit(soup, e):
@@ -80,15 +99,17 @@ def do_edit(soup, e):
         pass
 
 
-def run_history(src_id, form, edits):
+def run_history(src_id, form, edits, skip=SKIP):
     """one slot's own history, alone: the reference for isolation"""
-    soup, o = parse_obs(feed(POOL[src_id - 1], form))
+    soup, o = parse_obs(feed(POOL[src_id - 1], form), skip)
     for e in edits:
+        if isinstance(soup, Failed):
+            break
         if e == 'reparse':
-            soup, o = parse_obs(str(soup))
+            soup, o = parse_obs(str(soup), skip)
         else:
             do_edit(soup, e)
-    return {'out': str(soup), 'flat': proj.flat_seq(soup.expr._contents)}
+    return snapshot(soup)
 
 
 def _session(rec):
@@ -100,14 +121,17 @@ def _session(rec):
         try:
             if a == 'parse':
                 sid, form = int(st['x'][0]), st['x'][1]
-                slots[d], _ = parse_obs(feed(POOL[sid - 1], form))
-                hist[d] = (sid, form, [])
+                skip = SKIP if st['x'][2] == 'skip' else ()
+                slots[d], _ = parse_obs(feed(POOL[sid - 1], form), skip)
+                hist[d] = (sid, form, [], skip)
             elif a == 'edit':
-                do_edit(slots[d], st['x'][0])
-                hist[d][2].append(st['x'][0])
+                if not isinstance(slots[d], Failed):
+                    do_edit(slots[d], st['x'][0])
+                    hist[d][2].append(st['x'][0])
             elif a == 'reparse':
-                slots[d], _ = parse_obs(str(slots[d]))
-                hist[d][2].append('reparse')
+                if not isinstance(slots[d], Failed):
+                    slots[d], _ = parse_obs(str(slots[d]), hist[d][3])
+                    hist[d][2].append('reparse')
             elif a == 'drop':
                 slots[d], hist[d] = None, None
         except Exception as e:   # noqa
@@ -115,11 +139,11 @@ def _session(rec):
         for k in (1, 2):
             if slots[k] is None:
                 continue
-            want = run_history(hist[k][0], hist[k][1], hist[k][2])
-            got = {'out': str(slots[k]), 'flat': proj.flat_seq(slots[k].expr._contents)}
+            want = run_history(hist[k][0], hist[k][1], hist[k][2], hist[k][3])
+            got = snapshot(slots[k])
             if got != want:
                 return {'step': n, 'why': 'isolation' if k != d else 'history', 'slot': k, 'got': got['out'], 'want': want['out']}
-        if slots[1] is not None and slots[2] is not None:
+        if slots[1] is not None and slots[2] is not None and not isinstance(slots[1], Failed) and not isinstance(slots[2], Failed):
             shared = _ids(slots[1].expr) & _ids(slots[2].expr)
             if shared:
                 return {'step': n, 'why': 'shared-state', 'count': len(shared)}
@@ -233,10 +257,10 @@ def run(chk):
     chk.count('seed_runs', len(SEEDS) * len(srcs))
     # (4) sessions
     dd = tlc.workdir('C17_session')
-    tlc.write_mc(dd, 'MCS', 'Session', ['MCForms == {%s}' % ', '.join(tlc.tla_str(f) for f in (['str', 'list', 'file'] if quick else FORMS)),
+    tlc.write_mc(dd, 'MCS', 'Session', ['MCForms == {%s}' % ', '.join(tlc.tla_str(f) for f in (['str', 'gen'] if quick else FORMS)),
                                         'MCEdits == {%s}' % ', '.join(tlc.tla_str(e) for e in EDITS)],
                  'SPECIFICATION Spec\nCONSTANTS\n NSrc = %d\n Forms <- MCForms\n EditKinds <- MCEdits\n MaxSteps = %d\n'
-                 'INVARIANT Dump\nPROPERTY Isolation\nCHECK_DEADLOCK FALSE\n' % (3 if quick else len(POOL), 4))
+                 'INVARIANT Dump\nPROPERTY Isolation\nCHECK_DEADLOCK FALSE\n' % (2 if quick else 4, 4))
     sres = tlc.run(dd, 'MCS', timeout=3000)
     chk.add_tlc('session', sres, 'Session: all interleavings of parse/edit/reparse/drop on two documents, 4 steps')
     if sres.violated:
